@@ -275,6 +275,30 @@ func (e *cenv) uCases() []ucase {
 			add("single-coefficient", f.FromInts(vs...))
 		}
 	}
+	{
+		// values whose Montgomery representation has a single non-zero limb (helpers such as G?NotZero read raw limbs)
+		limbs := (p.BitLen() + 63) / 64
+		R := new(big.Int).Lsh(big.NewInt(1), uint(64*limbs))
+		rinv := new(big.Int).ModInverse(new(big.Int).Mod(R, p), p)
+		for k := 0; k < limbs; k++ {
+			for _, pat := range []uint64{1, 1 << 63} {
+				raw := new(big.Int).Lsh(new(big.Int).SetUint64(pat), uint(64*k))
+				if raw.Cmp(p) >= 0 {
+					continue
+				}
+				v := new(big.Int).Mul(raw, rinv)
+				v.Mod(v, p)
+				for pos := 0; pos < f.Deg(); pos++ {
+					vs := make([]*big.Int, f.Deg())
+					for j := range vs {
+						vs[j] = new(big.Int)
+					}
+					vs[pos] = v
+					add("montgomery-single-limb", f.FromInts(vs...))
+				}
+			}
+		}
+	}
 	var exc []ofield.El
 	if e.svdw != nil {
 		exc = e.svdw.Exceptional()
@@ -586,22 +610,39 @@ func (e *cenv) checkMap(u ofield.El, cls string) (gpt ocurve.Pt, gok bool) {
 	P := toPt(f, gg)
 	c.Check("MapToG", KG+"/nondeterministic", f.Eq(gg.X, gg2.X) && f.Eq(gg.Y, gg2.Y), func() string { return descG() + ": two calls, two results" })
 	onG := c.Check("MapToG", KG+"/off-curve/"+cls+"/"+bcls, e.E.IsOnCurve(P), func() string { return descG() + " = " + e.E.String(P) + " is not on the curve" })
+	osub := false
 	if onG {
-		c.Check("MapToG", KG+"/not-in-subgroup/"+cls+"/"+bcls, e.E.Mul(P, e.g.R).Inf, func() string { return descG() + " = " + e.E.String(P) + ": [r]P != O" })
+		osub = e.E.Mul(P, e.g.R).Inf
+		c.Check("MapToG", KG+"/not-in-subgroup/"+cls+"/"+bcls, osub, func() string { return descG() + " = " + e.E.String(P) + ": [r]P != O" })
+	}
+	if !P.Inf {
+		// the library's own predicates are observed on the returned point (they are what callers would use)
+		var lon, lsub bool
+		if !c.Guard(KG+"/panic/predicates", descG, func() { lon = in.LibIsOnCurve(gg); lsub = in.LibIsInSubGroup(gg) }) {
+			c.Check("MapToG", KG+"/IsOnCurve-disagrees", lon == onG, func() string {
+				return descG() + fmt.Sprintf(" = %s: IsOnCurve() = %v, oracle curve equation says %v", e.E.String(P), lon, onG)
+			})
+			if onG {
+				c.Check("MapToG", KG+"/IsInSubGroup-disagrees", lsub == osub, func() string {
+					return descG() + fmt.Sprintf(" = %s: IsInSubGroup() = %v, oracle [r]P = O is %v", e.E.String(P), lsub, osub)
+				})
+			}
+		}
 	}
 	switch {
-	case undefined:
 	case cofactorOne[e.N]:
-		c.Check("MapToG", KG+"/rfc-mismatch/"+bcls, e.E.Eq(P, want), func() string {
-			return descG() + " = " + e.E.String(P) + ", cofactor 1: the RFC 9380 map gives " + e.E.String(want)
-		})
-	default:
-		// clear_cofactor is a homomorphism onto the subgroup: it kills a point only when its r-part is trivial,
-		// which has probability 1/r for the inputs used here
-		Q := want
-		if res.Alt != nil && on && e.Em.Eq(gp, *res.Alt) {
-			Q = *res.Alt
+		if !undefined {
+			c.Check("MapToG", KG+"/rfc-mismatch/"+bcls, e.E.Eq(P, want), func() string {
+				return descG() + " = " + e.E.String(P) + ", cofactor 1: the RFC 9380 map gives " + e.E.String(want)
+			})
 		}
+	default:
+		// MapToG must be clear_cofactor(isogeny(MapToCurve(u))): built from the library's own MapToCurve output (compared
+		// with the oracle map above) pushed through the oracle's evaluation of the rational maps.
+		if !on {
+			break
+		}
+		Q := gp
 		if e.iso != nil {
 			Q = e.iso.Eval(Q)
 		}
@@ -621,10 +662,12 @@ func (e *cenv) checkMap(u ofield.El, cls string) (gpt ocurve.Pt, gok bool) {
 			var cc h2c.Pt
 			if !c.Guard(KG+"/panic/ClearCofactor", descG, func() { cc = in.ClearCofactor(lq) }) {
 				c.Check("MapToG", KG+"/composition-mismatch/"+bcls, e.E.Eq(toPt(f, cc), P), func() string {
-					return descG() + " = " + e.E.String(P) + " but ClearCofactor(isogeny(map(u))) with the oracle's mapped point " + e.E.String(Qm) + " is " + e.E.String(toPt(f, cc))
+					return descG() + " = " + e.E.String(P) + " but ClearCofactor(isogeny(map(u))) with the mapped point " + e.E.String(Qm) + " is " + e.E.String(toPt(f, cc))
 				})
 			}
 		}
+		// clear_cofactor is a homomorphism onto the subgroup: it kills a point only when its r-part is trivial,
+		// which has probability 1/r for the inputs used here (points of order 2 excepted, handled above)
 		if !Q.Inf {
 			c.Check("MapToG", KG+"/identity/"+cls, !P.Inf, func() string {
 				return descG() + ": returned the identity although the mapped point " + e.E.String(Q) + " is not"
@@ -696,6 +739,7 @@ func (e *cenv) hashChecks() {
 		}
 	}
 	KE, KH := e.N+"/EncodeToG"+e.W, e.N+"/HashToG"+e.W
+	outSeen := map[string]string{}
 	for _, cs := range cases {
 		msg, dst := mkBytes(e.rng, cs.ml, e.rng.Bool()), mkBytes(e.rng, cs.dl, e.rng.Bool())
 		m0, d0 := append([]byte{}, msg...), append([]byte{}, dst...)
@@ -719,6 +763,15 @@ func (e *cenv) hashChecks() {
 			c.Check(op, K+"/input-modified", string(msg) == string(m0) && string(dst) == string(d0), func() string { return desc() + ": msg or dst was written" })
 			c.Check(op, K+"/nondeterministic", f.Eq(got.X, got2.X) && f.Eq(got.Y, got2.Y), func() string { return desc() + ": two calls, two results" })
 			P := toPt(f, got)
+			{
+				// distinct (msg, dst) must not collide (probability ~ 1/r each): spec-independent degeneracy detector
+				k := op + f.String(got.X) + f.String(got.Y)
+				if prev, dup := outSeen[k]; dup {
+					c.Fail(K+"/collision", "%s and %s return the same point %s", desc(), prev, e.E.String(P))
+				}
+				outSeen[k] = desc()
+				c.Eval(op, 1)
+			}
 			if c.Check(op, K+"/off-curve", e.E.IsOnCurve(P), func() string { return desc() + " = " + e.E.String(P) + " is not on the curve" }) {
 				c.Check(op, K+"/not-in-subgroup", e.E.Mul(P, e.g.R).Inf, func() string { return desc() + " = " + e.E.String(P) + ": [r]P != O" })
 			}
@@ -758,6 +811,30 @@ func (e *cenv) hashChecks() {
 				return desc() + " = " + e.E.String(P) + ", composition of hash_to_field and MapToG gives " + e.E.String(want) + " (u = " + elsString(f, us) + ")"
 			})
 		}
+	}
+	// cheap sweep (library calls only): distinct messages must give distinct points
+	for _, op := range []string{"EncodeToG", "HashToG"} {
+		K, call := KE, in.EncodeTo
+		if op == "HashToG" {
+			K, call = KH, in.HashTo
+		}
+		dst := []byte("C13-collision-sweep")
+		for i := 0; i < c.Pick(96, 2000); i++ {
+			msg := append([]byte(fmt.Sprintf("sweep-%d-", i)), e.rng.Bytes(e.rng.Intn(40))...)
+			desc := func() string { return fmt.Sprintf("%s%s(msg=%s, dst=%q)", op, e.W, hx(msg), dst) }
+			var got h2c.Pt
+			var err error
+			if c.Guard(K+"/panic/sweep", desc, func() { got, err = call(msg, dst) }) || err != nil {
+				continue
+			}
+			k := op + f.String(got.X) + f.String(got.Y)
+			if prev, dup := outSeen[k]; dup {
+				c.Fail(K+"/collision", "%s and %s return the same point %s", desc(), prev, e.E.String(toPt(f, got)))
+			}
+			outSeen[k] = desc()
+			c.Eval(op, 1)
+		}
+		c.Class(K + "/collision-sweep")
 	}
 	// inadmissible tags
 	for _, dl := range []int{256, 257, 1000} {
